@@ -88,16 +88,16 @@ type NCRec struct {
 // NCRun is everything a NETCONF session run produced.
 type NCRun struct {
 	holdWait time.Duration
-	Sc      *NCSession
-	Srv     *peer.Netconf
-	Tr      *simnet.T
-	D       *netconf.Driver
-	OpenRec NCRec
-	Recs    []NCRec
-	Ver     string
-	Caps    []string
-	SID     uint64
-	ResumeT time.Duration
+	Sc       *NCSession
+	Srv      *peer.Netconf
+	Tr       *simnet.T
+	D        *netconf.Driver
+	OpenRec  NCRec
+	Recs     []NCRec
+	Ver      string
+	Caps     []string
+	SID      uint64
+	ResumeT  time.Duration
 	// CloseBegin is the fake time Channel.Close was first entered (-1: never)
 	CloseBegin time.Duration
 }
